@@ -20,7 +20,7 @@ pub fn run(run: &mut Run) {
         .into();
     run.assumptions = vec!["timelines in which one property has two keyframes at 0 % are generated but never judged (ambiguous)".into()];
     run.min_sigs = 30;
-    let n: u64 = if run.thorough() { 1_000_000 } else { 40_000 };
+    let n: u64 = if run.thorough() { 1_000_000 } else { 100_000 };
     let seed = run.seed;
     let rc = run.replay_case();
     let verbose = rc.is_some();
